@@ -32,7 +32,7 @@ use graph::number_of_hops;
 
 use crate::{
     identifier::isd_asn::IsdAsn,
-    path::{ScionPath, fingerprint::data_plane::DpPathFingerprint},
+    path::{ScionPath, metadata::path_interface::PathInterface},
     segment::{Entry, PathSegment},
 };
 
@@ -116,13 +116,24 @@ fn has_loops(path: &ScionPath) -> bool {
 /// number of duplicates in wide network topologies.
 #[inline]
 fn filter_duplicates(paths: Vec<ScionPath>) -> Vec<ScionPath> {
-    // Store the index of the path with the latest expiry for every unique path fingerprint.
+    // Store the index of the path with the latest expiry for every unique sequence of path
+    // interfaces. The dataplane fingerprint is not usable as key: it also covers the unused
+    // interface of a shortcut hop field and depends on the construction direction of a segment.
     let mut path_result = Vec::new();
-    let mut unique_paths: HashMap<DpPathFingerprint, (u32, usize)> = HashMap::new();
+    let mut unique_paths: HashMap<Vec<PathInterface>, (u32, usize)> = HashMap::new();
     for path in paths.into_iter() {
-        let fingerprint = path.fingerprint();
+        let interfaces = path
+            .metadata
+            .as_ref()
+            .unwrap()
+            .interfaces
+            .as_ref()
+            .unwrap()
+            .iter()
+            .map(|i| i.interface)
+            .collect();
 
-        match unique_paths.entry(fingerprint) {
+        match unique_paths.entry(interfaces) {
             // If we already have a path with the same fingerprint, compare the expiration and keep
             // the one with the later expiration.
             std::collections::hash_map::Entry::Occupied(mut entry) => {
